@@ -47,6 +47,16 @@ CONSTANTS
                  \*   is sent in a second poly-eval message ("eval2")
     Overlap,     \* TRUE: the previous (failing) eon of the keyper set is still active when this one
                  \*   starts; shiftPhases of block 1 finalises it and queues its failure vote ("old")
+    Gov,         \* TRUE: governance prefix. The run starts BEFORE the keyper set of the eon is registered:
+                 \*   the keyper's own handleOnChainKeyperSetChanges queues its BatchConfig vote (and
+                 \*   sendNewBlockSeen a BlockSeen report), the other keypers' votes register the config
+                 \*   in block 0 (BatchConfig + EonStarted events) and their BlockSeen reports start it
+                 \*   at the end of block 1; handleBatchConfig queues the check-in and purges the
+                 \*   keyper's own vote with DeleteShutterMessageByDesc
+    DownUntil,   \* Gov: >0: the keyper process dies right after the transaction that queued the vote
+                 \*   and is started again when block DownUntil is open (0: it stays up)
+    PurgeMode,   \* "match": the description handleBatchConfig rebuilds is the one the vote was queued
+                 \*   with; "mismatch": named alternative, the purge deletes nothing
     SyncEvery,   \* catch-up: the keyper calls SyncAppWithDB only after the blocks h with
     SyncOff,     \*   h % SyncEvery = SyncOff (and after the last block); one call then handles
                  \*   several blocks, each in its own transaction (fetchEvents2)
@@ -83,6 +93,7 @@ DbInit ==
      rows   |-> <<>>,          \* tendermint_sync_meta rows (current_block) in insertion order
      pure   |-> FALSE,         \* a puredkg row exists
      rec    |-> NoRec,         \* its content
+     cfgseen |-> ~Gov,         \* tendermint_batch_config has the row of the eon's keyper config
      evp    |-> 0,             \* poly_evals: polynomial token of the evaluation waiting for a key (0 = none)
      loadable |-> TRUE,        \* every stored puredkg row can be decoded by shdb.DecodePureDKG
      outbox |-> <<>>,          \* tendermint_outgoing_messages in id order
@@ -104,7 +115,8 @@ Init0 ==
      blocks   |-> <<>>,        \* blocks[h+1] = my accepted messages in closed block h
      head     |-> 0,           \* last closed block (block 0 = votes, BatchConfig + EonStarted events)
      pc       |-> "sync",      \* "sync": apply the closed blocks; "post": send the outbox; "done"
-     tx       |-> [on |-> FALSE, db |-> DbInit],
+     tx       |-> [on |-> FALSE, db |-> DbInit, nq |-> <<>>],
+     stuck    |-> FALSE,       \* SendShutterMessages returned because shuttermint refused the head (Error)
      inflight |-> FALSE,       \* the head of the outbox was broadcast and accepted, not yet deleted
      crashes  |-> 0]
 
@@ -125,7 +137,7 @@ Load(mem, db) ==
 (* working record of one handleBlock: [has, rec, blocked, dirty, db]; dirty = ActiveDKG.dirty:
    Save writes the puredkg row only for objects marked dirty, so every handler that changes the
    object has to mark it (a change that is not marked lives in memory only and is lost with it) *)
-Queue(w, m) == [w EXCEPT !.db.outbox = Append(@, m)]
+Queue(w, m) == [w EXCEPT !.db.outbox = Append(@, m), !.nq = Append(@, m)]
 Dirty(w) == [w EXCEPT !.dirty = TRUE]
 
 (* smstate.shiftPhase, one transition *)
@@ -165,8 +177,17 @@ HandleFixed(w, h) ==
    the object (dirty) and shifts it to Dealing: startPhase1Dealing draws the polynomial and queues
    the commitment; the BeforeSaveHook (sendPolyEvals) queues the evaluations in the same
    transaction *)
-HandleBlock0(w, fresh) ==
-    LET w2 == Dirty([w EXCEPT !.has = TRUE, !.rec = [NoRec EXCEPT !.phase = Dealing, !.poly = fresh],
+(* handleBatchConfig (governance prefix): check-in queued, config row inserted, the keyper's own
+   unsent vote purged by description *)
+HandleBatchConfig(w) ==
+    LET w1 == Queue([w EXCEPT !.db.cfgseen = TRUE], M("checkin", 0)) IN
+    IF PurgeMode = "match"
+    THEN [w1 EXCEPT !.db.outbox = SelectSeq(@, LAMBDA m : m.k # "vote"), !.nq = SelectSeq(@, LAMBDA m : m.k # "vote")]
+    ELSE w1
+
+HandleBlock0(w0, fresh) ==
+    LET w == IF Gov THEN HandleBatchConfig(w0) ELSE w0
+        w2 == Dirty([w EXCEPT !.has = TRUE, !.rec = [NoRec EXCEPT !.phase = Dealing, !.poly = fresh],
                               !.db.evp = IF LateCheckin > 0 THEN fresh ELSE 0])
     IN Queue(Queue(w2, M("commit", fresh)), M("eval", fresh))
 
@@ -182,14 +203,14 @@ HandleOverlap(w, h) == IF Overlap /\ h = 1 THEN Queue(w, M("old", 0)) ELSE w
    [mem, db] = memory afterwards and staged database *)
 TxBody(s, h) ==
     LET m1 == Load(s.mem, s.db)
-        w0 == [has |-> m1.has, rec |-> m1.rec, blocked |-> m1.blocked, dirty |-> FALSE,
+        w0 == [has |-> m1.has, rec |-> m1.rec, blocked |-> m1.blocked, dirty |-> FALSE, nq |-> <<>>,
                db |-> [s.db EXCEPT !.sync = h, !.rows = Append(@, h)]]
         w1 == HandleOverlap(Shift(w0, h), h)
         w2 == IF h = 0 THEN HandleBlock0(w1, FreshPoly(s))
               ELSE HandleLateCheckin(HandleFixed(HandleOwns(w1, s.blocks[h + 1]), h), h)
         (* Save: the object, if there is one and it is dirty, is written back *)
         w3 == IF w2.has /\ w2.dirty THEN [w2 EXCEPT !.db.pure = TRUE, !.db.rec = w2.rec] ELSE w2
-    IN [mem |-> [m1 EXCEPT !.has = w3.has, !.rec = w3.rec], db |-> w3.db]
+    IN [mem |-> [m1 EXCEPT !.has = w3.has, !.rec = w3.rec], db |-> w3.db, nq |-> w3.nq]
 
 (* shuttermint's answer to a broadcast of this keyper *)
 Seen(app, m) ==
@@ -201,6 +222,8 @@ Seen(app, m) ==
       [] m.k = "acc"     -> app.acc
       [] m.k = "apol"    -> app.apol
       [] m.k = "result"  -> app.vote
+      [] m.k = "bseen"   -> FALSE          \* BlockSeen reports are always accepted
+      [] m.k = "vote"    -> TRUE           \* the config is registered by the other keypers' votes first
 Mark(app, m) ==
     CASE m.k = "commit"  -> [app EXCEPT !.commit = TRUE]
       [] m.k = "eval"    -> [app EXCEPT !.eval = TRUE]
@@ -215,23 +238,30 @@ MakesEvent(m) == m.k \in {"commit", "eval", "eval2", "acc", "apol"}
 (* actions, as operators state -> state (guards separate) *)
 
 CanTxBody(s)   == s.mem.alive /\ s.pc = "sync" /\ ~s.tx.on /\ s.db.sync < s.head
-DoTxBody(s)    == LET x == TxBody(s, s.db.sync + 1) IN [s EXCEPT !.mem = x.mem, !.tx = [on |-> TRUE, db |-> x.db]]
+DoTxBody(s)    == LET x == TxBody(s, s.db.sync + 1) IN [s EXCEPT !.mem = x.mem, !.tx = [on |-> TRUE, db |-> x.db, nq |-> x.nq]]
 
 CanTxCommit(s) == s.mem.alive /\ s.tx.on
 DoTxCommit(s)  == [s EXCEPT !.db = s.tx.db, !.tx.on = FALSE,
-                             !.queued = @ \o [i \in 1..(Len(s.tx.db.outbox) - Len(s.db.outbox)) |->
-                                               s.tx.db.outbox[Len(s.db.outbox) + i]]]
+                             !.queued = @ \o s.tx.nq]
 
 (* sync() / fetchEvents2 applies the closed blocks one transaction after the other and returns when
    every closed block is applied; then the outbox is sent *)
 CanSyncDone(s) == s.pc = "sync" /\ ~s.tx.on /\ s.db.sync = s.head /\ s.mem.alive
 DoSyncDone(s)  == [s EXCEPT !.pc = IF s.head = LastBlock THEN "done" ELSE "post"]
 
-CanSendHead(s) == s.mem.alive /\ s.pc = "post" /\ ~s.inflight /\ s.db.outbox # <<>>
+(* deliverBatchConfig for a vote that arrives after the config was STARTED (block 1 closed):
+   "checkConfig: config index of next config not greater than current one" -> Error; SendMessage
+   returns a RemoteError, SendShutterMessages keeps the row and returns: the head blocks the outbox *)
+Refused(s, m) == m.k = "vote" /\ s.head >= 1
+
+CanSendHead(s) == s.mem.alive /\ s.pc = "post" /\ ~s.inflight /\ ~s.stuck /\ s.db.outbox # <<>>
 DoSendHead(s)  ==
     LET m == Head(s.db.outbox)
         seen == Seen(s.app, m)
-    IN [s EXCEPT !.sent = Append(@, [k |-> m.k, p |-> m.p, code |-> IF seen THEN CodeSeen ELSE CodeOk]),
+    IN IF Refused(s, m)
+       THEN [s EXCEPT !.sent = Append(@, [k |-> m.k, p |-> m.p, code |-> CodeError]), !.stuck = TRUE]
+       ELSE
+       [s EXCEPT !.sent = Append(@, [k |-> m.k, p |-> m.p, code |-> IF seen THEN CodeSeen ELSE CodeOk]),
                  !.app = IF seen THEN @ ELSE Mark(@, m),
                  !.open = IF ~seen /\ MakesEvent(m) THEN Append(@, m) ELSE @,
                  !.inflight = TRUE]
@@ -240,18 +270,36 @@ CanDeleteHead(s) == s.mem.alive /\ s.inflight
 DoDeleteHead(s)  == [s EXCEPT !.db.outbox = Tail(@), !.inflight = FALSE]
 
 (* the harness closes the block when the keyper has nothing left to send *)
-CanClose(s) == s.mem.alive /\ s.pc = "post" /\ ~s.inflight /\ s.db.outbox = <<>> /\ s.head < LastBlock
-DoClose(s)  == [s EXCEPT !.head = @ + 1, !.blocks = Append(@, s.open), !.open = <<>>,
+CanClose(s) == s.mem.alive /\ s.pc = "post" /\ ~s.inflight /\ (s.db.outbox = <<>> \/ s.stuck) /\ s.head < LastBlock
+DoClose(s)  == [s EXCEPT !.head = @ + 1, !.blocks = Append(@, s.open), !.open = <<>>, !.stuck = FALSE,
                           !.pc = IF SyncNow(s.head + 1) THEN "sync" ELSE "post"]
 
 (* the process dies: memory, open transaction and in-flight knowledge are gone *)
 CanCrash(s) == s.mem.alive /\ s.pc # "done" /\ s.crashes < MaxCrashes
-DoCrash(s)  == [s EXCEPT !.mem = MemDead, !.tx.on = FALSE, !.inflight = FALSE, !.crashes = @ + 1]
+DoCrash(s)  == [s EXCEPT !.mem = MemDead, !.tx.on = FALSE, !.inflight = FALSE, !.stuck = FALSE, !.crashes = @ + 1]
 
-CanRestart(s) == ~s.mem.alive
+CanRestart(s) == ~s.mem.alive /\ s.pc # "down"
 DoRestart(s)  == [s EXCEPT !.mem = MemFresh]
 
-(* the state the harness starts from: block 0 is closed, not yet applied *)
-InitState == [Init0 EXCEPT !.blocks = <<<<>>>>, !.pc = IF SyncNow(0) THEN "sync" ELSE "post"]
+(* governance prefix: handleOnChainChanges in one transaction (atomic here: a crash inside it leaves
+   nothing behind): the vote and a BlockSeen report are queued; with DownUntil > 0 the process dies
+   right after the commit *)
+CanGovTx(s) == s.mem.alive /\ s.pc = "gov"
+DoGovTx(s)  ==
+    LET s1 == [s EXCEPT !.db.outbox = @ \o <<M("vote", 0), M("bseen", 0)>>,
+                        !.queued = @ \o <<M("vote", 0), M("bseen", 0)>>] IN
+    IF DownUntil > 0 THEN [s1 EXCEPT !.pc = "down", !.mem = MemDead] ELSE [s1 EXCEPT !.pc = "post"]
+
+(* the chain goes on while the keyper is down; it comes back when block DownUntil is open and first
+   catches up (SyncAppWithDB over every closed block), then sends *)
+CanCloseDown(s) == s.pc = "down" /\ s.head + 1 < DownUntil
+DoCloseDown(s)  == [s EXCEPT !.head = @ + 1, !.blocks = Append(@, <<>>)]
+CanUp(s) == s.pc = "down" /\ s.head + 1 = DownUntil
+DoUp(s)  == [s EXCEPT !.mem = MemFresh, !.pc = "sync"]
+
+(* the state the harness starts from: block 0 is closed, not yet applied; governance prefix: nothing
+   is closed yet, block 0 is open *)
+InitState == IF Gov THEN [Init0 EXCEPT !.head = -1, !.pc = "gov"]
+             ELSE [Init0 EXCEPT !.blocks = <<<<>>>>, !.pc = IF SyncNow(0) THEN "sync" ELSE "post"]
 
 =============================================================================
